@@ -39,17 +39,18 @@ Do(a) ==
                                   /\ s' = After(cfg, s, a, out)
                                   /\ last' = [a |-> a, ok |-> TRUE, out |-> out]
 
-NewKeys    == \E c \in Chains \cup Foreign, n \in 1..2 : (n = 2 => c.acct = 0 /\ c.net = "bitcoin") /\ Do(Req("new_keys", c, n, 0)) /\ UNCHANGED jumped
-GetKeys    == \E c \in Chains, n \in 1..2 : (n = 2 => c.acct = 0 /\ c.wt = "segwit") /\ Do(Req("get_keys", c, n, 0)) /\ UNCHANGED jumped
-KeyForPath == \E c \in Chains, i \in 0..MaxIdx :
+Tick == steps < MaxSteps /\ steps' = steps + 1
+NewKeys    == Tick /\ \E c \in Chains \cup Foreign, n \in 1..2 : (n = 2 => c.acct = 0 /\ c.net = "bitcoin") /\ Do(Req("new_keys", c, n, 0)) /\ UNCHANGED jumped
+GetKeys    == Tick /\ \E c \in Chains, n \in 1..2 : (n = 2 => c.acct = 0 /\ c.wt = "segwit") /\ Do(Req("get_keys", c, n, 0)) /\ UNCHANGED jumped
+KeyForPath == Tick /\ \E c \in Chains, i \in 0..MaxIdx :
                  /\ (c.acct = 1 => i = 1)
                  /\ Do(Req("key_for_path", c, 1, i))
                  /\ jumped' = IF last'.ok /\ i \notin Idxs(s, c) /\ i \notin NextSet(s, c) THEN jumped \cup {c} ELSE jumped
-NewAccount == \E c \in Chains \cup Foreign, x \in {-1, 1} : c.ch = 0 /\ c.acct = 0 /\ Do(Req("new_account", Chain(c.net, c.wt, x, 0), 0, 0)) /\ UNCHANGED jumped
-MarkUsed   == \E p \in s.keys : Do(Req("mark_used", ChainOf(p), 0, p.idx)) /\ UNCHANGED jumped
+NewAccount == Tick /\ \E c \in Chains \cup Foreign, x \in {-1, 1} : c.ch = 0 /\ c.acct = 0 /\ Do(Req("new_account", Chain(c.net, c.wt, x, 0), 0, 0)) /\ UNCHANGED jumped
+MarkUsed   == Tick /\ \E p \in s.keys : Do(Req("mark_used", ChainOf(p), 0, p.idx)) /\ UNCHANGED jumped
 
 Init == s = InitS(cfg) /\ steps = 0 /\ jumped = {} /\ last = [a |-> NoReq, ok |-> TRUE, out |-> <<>>]
-Next == steps < MaxSteps /\ steps' = steps + 1 /\ (NewKeys \/ GetKeys \/ KeyForPath \/ NewAccount \/ MarkUsed)
+Next == NewKeys \/ GetKeys \/ KeyForPath \/ NewAccount \/ MarkUsed
 Spec == Init /\ [][Next]_vars
 
 \* ---- invariants
